@@ -817,6 +817,7 @@ def main():
     chk = Check("C15", "proof")
     insts, skipped = instances(chk.tier)
     chk.notes += ["table entry without a declared carrier, not decided: %s" % s for s in skipped]
+    chk.max_unsupported = 0     # every kernel of this check is executable by the numpy models on the unchanged tree
     chk.map("checks.c15", "worker", insts, chunksize=2)
     chk.bounds = dict(operands="unconstrained symbolic scalars of each op's carrier (no value enumeration)",
                       shapes=[str(s) for s in (SHAPES_Q if chk.tier == "quick" else SHAPES_T)], power_n="1..6" if chk.tier == "quick" else "1..10",
